@@ -9,6 +9,7 @@ mod pool;
 mod prog;
 mod refdfa;
 mod regex;
+mod strs;
 mod universe;
 
 use infra::*;
@@ -17,7 +18,13 @@ fn engine_for(prop: &str) -> Option<Box<dyn Engine>> {
     if let Some(k) = regex::Kind::from_id(prop) {
         return Some(Box::new(regex::RegexEngine { kind: k }));
     }
-    None
+    match prop {
+        "C06" => Some(Box::new(strs::c06_engine())),
+        "C08" => Some(Box::new(strs::c08_engine())),
+        "C09" => Some(Box::new(strs::c09_engine())),
+        "C17" => Some(Box::new(strs::c17_engine())),
+        _ => None,
+    }
 }
 
 fn parse_tier(s: &str) -> Option<Tier> {
